@@ -112,6 +112,15 @@ def _diff(got, model):
     return "?"
 
 
+def _library_defect(case):
+    """A failing case is not py7zr's when a codec library alone cannot round-trip the chain's stage input (DESIGN 4.1)."""
+    try:
+        data = b"".join(d for _, d in archives.materialize(case))
+        return chains.codec_library_defect(case["chain"], data, block=case.get("block"), **case.get("params", {}))
+    except Exception:
+        return None
+
+
 def sig(case, sym):
     parts = case["chain"].split("+")
     return {"symptom": sym, "chain": case["chain"], "header": case["header"], "target": case["target"][:2],
@@ -238,6 +247,10 @@ def shard(task):
             nontrivial = any(m[2] > 0 for m in case["members"])
             sh.case(case, nontrivial=nontrivial, sample=case if len(sh.samples) < 1 else None)
             sh.note("chains", case["chain"])
+            if r and _library_defect(case):
+                sh.count("codec_library_defect_not_judged")
+                sh.note("codec_library_defects", case["chain"].replace("+AES", ""))
+                continue
             for sym, msg in r:
                 if not confirm_at_real_constants(case):
                     sh.count("scaled_only_anomalies")
@@ -255,6 +268,9 @@ def shard(task):
             sh.case(case, nontrivial=any(m[2] > 0 for m in case["members"]), sample={"choices": ch.decoded(), "case": case} if len(sh.samples) < 1 else None)
             sh.note("chains", case["chain"])
             sh.count(f"deviations={ch.cost()}")
+            if r and _library_defect(case):
+                sh.count("codec_library_defect_not_judged")
+                return
             for sym, msg in r:
                 sh.violation(sig(case, sym), msg, {"case": case, "choices": ch.choices})
 
